@@ -636,6 +636,30 @@ def register(E):
         return None
     I['(reflect.Value).SetUint'] = r_setuint
 
+    def r_float(E, args):
+        v = args[0]
+        u = E.types[v.t].u
+        if u.k != 'basic' or not u.name.startswith('float'):
+            raise GoPanic('reflect: Float of non-float kind')
+        x = rv_get(E, v)
+        if u.bits == 64:
+            return x
+        return E.float_convert(x, u, E.types['float64'].u)
+    I['(reflect.Value).Float'] = r_float
+
+    def r_setfloat(E, args):
+        v, x = args
+        u = E.types[v.t].u
+        if u.k != 'basic' or not u.name.startswith('float'):
+            raise GoPanic('reflect: SetFloat of non-float kind')
+        if not v.addressable:
+            raise GoPanic('reflect: SetFloat on unaddressable value')
+        if u.bits == 32:
+            x = E.float_convert(x, E.types['float64'].u, u)
+        E.store(v.ptr, x)
+        return None
+    I['(reflect.Value).SetFloat'] = r_setfloat
+
     def r_setint(E, args):
         v, x = args
         u = E.types[v.t].u
@@ -761,12 +785,77 @@ def register(E):
         raise Unsupported('ToUpper symbolic')
     I['strings.ToUpper'] = strings_toupper
 
+    def sort_lemma(E, s, less):
+        """C03 (b): the comparator handed to sort.Slice by message.(*ReadWriter).Initialize, evaluated on three field
+        descriptors with SYMBOLIC type, index and extension flag (precondition: extension fields are declared after
+        every base field): it is a strict total order and coincides with the MAVLink field order. Triples suffice
+        for transitivity, so the result does not depend on the number of fields or on the sort algorithm."""
+        if s.len < 3:
+            raise Unsupported('sort lemma needs 3 fields')
+        pt = E.types[E.types[E.types['[]*github.com/bluenviron/gomavlib/v3/pkg/message.decEncoderField'].u.elem].u.elem].u
+        fidx = {f['name']: k for k, f in enumerate(pt.fields)}
+        elems = [E.slice_get(s, k) for k in range(3)]
+        ft, ix, ex = [], [], []
+        for k, p in enumerate(elems):
+            t = E.add_nondet('bv', 64)
+            E.assume(z3.And(z3.UGE(t, BV(1, 64)), z3.ULE(t, BV(11, 64))))
+            reps = E.opt.get('sort_lemma_types')
+            if reps:
+                E.assume(z3.Or([t == BV(r, 64) for r in reps]))
+            t = E.concretize(t, 'field type')  # fork over the field types; index and extension flag stay symbolic
+            idx = E.add_nondet('bv', 64)
+            E.assume(z3.ULT(idx, BV(1000, 64)))
+            e = E.add_nondet('bool', 0)
+            E.store(Ptr(p.obj, p.path + (fidx['ftype'],)), t)
+            E.store(Ptr(p.obj, p.path + (fidx['index'],)), idx)
+            E.store(Ptr(p.obj, p.path + (fidx['isExtension'],)), e)
+            ft.append(t)
+            ix.append(idx)
+            ex.append(e)
+        for a in range(3):
+            for b in range(a + 1, 3):
+                E.assume(ix[a] != ix[b])
+                # extensions are declared after base fields
+                E.assume(z3.Implies(z3.And(ex[a], z3.Not(ex[b])), z3.UGT(ix[a], ix[b])))
+                E.assume(z3.Implies(z3.And(ex[b], z3.Not(ex[a])), z3.UGT(ix[b], ix[a])))
+
+        def size_of(t):
+            # MAVLink wire sizes of the 11 field types in the order of the fieldType constants
+            sizes = [8, 8, 8, 4, 4, 4, 2, 2, 1, 1, 1]
+            return BV(sizes[t - 1], 64)
+
+        def spec_less(a, b):
+            both_base = z3.And(z3.Not(ex[a]), z3.Not(ex[b]))
+            sa, sb = size_of(ft[a]), size_of(ft[b])
+            return z3.If(z3.And(both_base, sa != sb), z3.UGT(sa, sb),
+                         z3.If(z3.And(z3.Not(ex[a]), ex[b]), z3.BoolVal(True),
+                               z3.If(z3.And(ex[a], z3.Not(ex[b])), z3.BoolVal(False), z3.ULT(ix[a], ix[b]))))
+        L = {}
+        for a in range(3):
+            for b in range(3):
+                c = E.call_value(less, [a, b])
+                L[(a, b)] = c if type(c) is not bool else z3.BoolVal(c)
+        for a in range(3):
+            E.assert_(z3.Not(L[(a, a)]), 'C03/order/irreflexive')
+            for b in range(3):
+                if a != b:
+                    E.assert_(z3.Not(z3.And(L[(a, b)], L[(b, a)])), 'C03/order/asymmetric')
+                    E.assert_(z3.Or(L[(a, b)], L[(b, a)]), 'C03/order/total')
+                    E.assert_(L[(a, b)] == spec_less(a, b), 'C03/order/is-mavlink-field-order')
+                    for c2 in range(3):
+                        if c2 != a and c2 != b:
+                            E.assert_(z3.Implies(z3.And(L[(a, b)], L[(b, c2)]), L[(a, c2)]), 'C03/order/transitive')
+        E.stats.reach['C03/order'] = E.stats.reach.get('C03/order', 0) + 1
+        raise GoExit()
+
     def sort_slice(E, args):
         """sort.Slice: in-place insertion sort driven by the real comparator closure (any correct sort gives the same
         result when the comparator is a strict weak order that totally orders the elements — C03 lemma)"""
         x, less = args
         s = x.v
         n = s.len
+        if E.opt.get('sort_lemma'):
+            return sort_lemma(E, s, less)
         for i in range(1, n):
             j = i
             while j > 0:
